@@ -8,6 +8,7 @@ package retry
 
 import (
 	"context"
+	"math"
 	"net/http"
 	"strconv"
 	"strings"
@@ -86,8 +87,8 @@ func (c Config) Validate() Config {
 		validated.InitialBackoff = MaxInitialBackoff
 	}
 
-	// Clamp BackoffFactor to reasonable range
-	if validated.BackoffFactor < MinBackoffFactor {
+	// Clamp BackoffFactor to reasonable range (NaN compares false with everything: clamp it explicitly)
+	if math.IsNaN(validated.BackoffFactor) || validated.BackoffFactor < MinBackoffFactor {
 		validated.BackoffFactor = MinBackoffFactor
 	} else if validated.BackoffFactor > MaxBackoffFactor {
 		validated.BackoffFactor = MaxBackoffFactor
@@ -139,6 +140,15 @@ func IsRetryableError(err error) bool {
 // isHTTPStatusRetryable checks if an error contains a retryable HTTP status code.
 // Uses precise patterns to avoid false positives (e.g., "port 5001" won't match "501").
 func isHTTPStatusRetryable(errStr string) bool {
+	// The transports of this package report an HTTP answer as "... status code NNN[, body: ...]".
+	// When that form is present the decision is taken on the status alone: text of the response
+	// body (which may mention other numbers) must not turn a 4xx into a retryable error, and every
+	// 5xx is transient, not only the ones with a registered name.
+	if status, ok := explicitHTTPStatus(errStr); ok {
+		return status == http.StatusRequestTimeout || status == http.StatusConflict ||
+			status == http.StatusTooManyRequests || (status >= 500 && status <= 599)
+	}
+
 	for _, code := range retryableStatusCodes {
 		// Match patterns like "HTTP 500", "status 500", "500 Internal Server Error"
 		if strings.Contains(errStr, "http "+code) ||
@@ -152,6 +162,24 @@ func isHTTPStatusRetryable(errStr string) bool {
 	}
 
 	return false
+}
+
+// explicitHTTPStatus extracts NNN from the first "status code NNN" in errStr.
+func explicitHTTPStatus(errStr string) (int, bool) {
+	const marker = "status code "
+	i := strings.Index(errStr, marker)
+	if i < 0 {
+		return 0, false
+	}
+	rest := errStr[i+len(marker):]
+	if len(rest) < 3 {
+		return 0, false
+	}
+	status, err := strconv.Atoi(rest[:3])
+	if err != nil || (len(rest) > 3 && rest[3] >= '0' && rest[3] <= '9') {
+		return 0, false
+	}
+	return status, true
 }
 
 // Execute executes a function with exponential backoff retry logic.
